@@ -251,6 +251,12 @@ class OpRunner(object):
         env = {}
         if o['hfenv']:
             env['TRASH_ENABLE_HOME_FALLBACK'] = '1'
+        else:
+            # only the value 1 switches the fallback on: 0 / no / false / empty / anything else leave it off
+            r4 = random.Random('hfenv|%s|%s' % (w.conc.variant_seed, json.dumps(lab.get('args'), sort_keys=True)))
+            v4 = r4.choice([None, None, '0', 'no', 'false', '', 'off', '11', 'yes'])
+            if v4 is not None:
+                env['TRASH_ENABLE_HOME_FALLBACK'] = v4
         args = []
         cwd = None
         stdin = b''
@@ -521,6 +527,10 @@ class OpRunner(object):
                 argv.append('-f')
         else:
             if not tty:
+                # -i given: interactive, also when a -f (say, from an alias) comes BEFORE it
+                r3 = random.Random('fi|%s|%s' % (w.conc.variant_seed, json.dumps(o, sort_keys=True)))
+                if r3.random() < 0.3:
+                    argv.append('-f')
                 argv.append(self.rnd.choice(['-i', '--interactive']))
             pool = EMPTY_YES if o['consent'] == 'yes' else EMPTY_NO
             if tty:
